@@ -77,13 +77,19 @@ def run_unit(unit, fs, seed=0, rlimit=None, keep=True, tag=""):
                     inlined.append(edit); done = True
         unit.items = items
         return unit if done else None
+    anchor_error, unit_at_anchor_error = None, None
     for _round in range(8):
         try:
             res = run_unit_once(unit, fs, seed, rlimit, keep, tag)
         except ExtractError as e:
+            if anchor_error is not None:
+                # inlining the helpers of the function did not bring the lost anchor back (or could not be done): the first error stands
+                raise anchor_error
+            anchor_error, unit_at_anchor_error = e, unit
             u2 = with_inline(unit, _unknown_helpers_of(unit, str(e)))
             if u2 is None: raise
             unit = u2; continue
+        anchor_error = None
         if res["status"] != "undecided" or not res["compile_errors"]:
             break
         # a pure helper of an earlier round whose contract Verus rejects: inline it instead
